@@ -1,5 +1,6 @@
 """C08 -- every request is answered exactly once; ACKs and responses never are."""
 import collections
+import importlib
 import itertools
 import re
 
@@ -177,12 +178,24 @@ def gen_cases(rng, tier):
                    "0:inv,100:reject:486,1000:bye,90000:options", "0:inv,100:accept,1000:update,33000:info,90000:options"):
         cases.append(["ua%d" % k, "c08", "ua", "uas", "-", script, "1"]); k += 1
     cases += _dup_cases()
+    # exactly one final response also where nothing is ever retransmitted: rejections and answers over a reliable transport, with the
+    # ACK early, late or missing (over an unreliable transport the copies must be the same response)
+    P06 = importlib.import_module("props.c06")
+    j = 0
+    for kind, code in (("inv", 481), ("inv", 486), ("ni", 200)):
+        for rel in (1, 0):
+            for t0 in (0, 137):
+                for evs in ([], [(t0 + 1000, "A")], [(t0 + 31000, "A")], [(t0 + 33000, "A")]):
+                    if kind == "ni" and evs:
+                        continue
+                    c = P06._case("srv%d" % j, kind, rel, code, t0, evs)
+                    cases.append([c[0], "c08", "srv"] + c[2:]); j += 1
     return cases
 
 
 # ---------------------------------------------------------------- observation -> per-request summary
 def model_case(case, impl):
-    if case[2] == "ua":
+    if case[2] in ("ua", "srv"):
         return [case[0], "c08", "", "-", "", "1"]        # no model run for the user-agent scenarios: decided by the oracle
     # a legacy client's requests (G) are out-of-dialog requests like any other for the model: RFC 2543 matching keeps them apart
     return case[:4] + [re.sub(r"(^|[,+])G:", r"\1Q:", case[4])] + case[5:]
@@ -272,7 +285,7 @@ def _summ_model(s):
 
 
 def accepts(case, impl, model):
-    if case[2] == "ua":
+    if case[2] in ("ua", "srv"):
         return True
     i, m = _summ_impl(impl), _summ_model(model)
     for rid in set(i) | set(m):
@@ -359,8 +372,23 @@ def _reference(case):
     return exp
 
 
+def _srv_oracle(case, impl):
+    if "PANIC" in impl:
+        return ["panic: " + impl[-300:]]
+    sends = [int(m.group(2)) for m in re.finditer(r"\bS(!?)@(\d+)", impl)]
+    if re.search(r"\bS!@", impl):
+        return ["the request received a second, different final response"]
+    if not sends:
+        return ["the request received no final response"]
+    if case[4] == "1" and len(sends) != 1:
+        return ["over a reliable transport the final response went out %d times (at %r ms): the request was received once, it gets exactly one final response" % (len(sends), sends)]
+    return []
+
+
 def oracle(case, impl):
     out = []
+    if case[2] == "srv":
+        return _srv_oracle(case, impl)
     if case[2] == "ua":
         return _ua_oracle(case, impl)
     if "PANIC" in impl:
@@ -412,6 +440,8 @@ def known(case, impl, violation, findings):
 
 
 def nontrivial(case, impl):
+    if case[2] == "srv":
+        return "|".join(case[3:])
     if case[2] == "ua":
         return case[5] if "W:SIP/2.0_" in impl else None
     if re.search(r"L\d+:r\d+ (L|U)", impl):
@@ -422,8 +452,8 @@ def nontrivial(case, impl):
 def distribution(cases, impl):
     h = collections.Counter()
     for c in cases:
-        if c[2] == "ua":
-            h["user-agent scenario"] += 1
+        if c[2] in ("ua", "srv"):
+            h["user-agent scenario" if c[2] == "ua" else "server transaction"] += 1
             continue
         h["layers=%d" % len([x for x in c[2].split(";") if x])] += 1
         h["dialogs=%d" % len([x for x in c[3].split(";") if x and x != "-"])] += 1
@@ -438,7 +468,7 @@ def distribution(cases, impl):
 
 
 def shrink_candidates(case):
-    if case[2] == "ua":
+    if case[2] in ("ua", "srv"):
         return []
     groups = case[4].split(",")
     out = []
